@@ -99,13 +99,20 @@ class Prop:
         nmax = 3 if quick else 4
         for g in mut.gen_exhaustive(nmax, families=FAMILIES):
             alts = g["alts"]
-            if g["n"] == nmax and g["n"] >= 3:
-                thin = ((("set_data", 5), ("addnode", 6), ("move", 6), ("copyto", 4), ("add", 4)) if quick
-                        else (("set_data", 6), ("addnode", 4), ("move", 4), ("copyto", 2), ("add", 2)))
+            thin = ()
+            if quick and g["n"] == 3:
+                thin = (("set_data", 12), ("addnode", 16), ("move", 12), ("copyto", 12), ("add", 12), ("short", 3), ("remove", 2))
+            elif quick and g["n"] == 2:
+                thin = (("set_data", 4), ("addnode", 4), ("move", 3), ("copyto", 3), ("add", 3))
+            elif not quick and g["n"] == 4:
+                thin = (("set_data", 6), ("addnode", 4), ("move", 4), ("copyto", 2), ("add", 2))
+            if thin:
+                # the offset varies with the shape so that, over the shapes, every argument combination is met
+                off = H.shape_size(()) + len(g["setup"]) + sum(len(str(o)) for o in g["setup"])
                 keep = set()
                 for fam, mod in thin:
                     sel = [a for a in alts if a[0] == fam]
-                    keep |= {id(a) for i, a in enumerate(sel) if i % mod == 0}
+                    keep |= {id(a) for i, a in enumerate(sel) if (i + off) % mod == 0}
                 alts = [a for a in alts if a[0] not in [f for f, _ in thin] or id(a) in keep]
             for i in range(0, len(alts), CHUNK):
                 yield dict(kind="alts", univ=g["univ"], setup=g["setup"], alts=alts[i:i + CHUNK], label=g["label"])
